@@ -433,22 +433,26 @@ func ruleLocalBufferLayout(r *core.Run, p *core.Prog) {
 	})
 	reader := map[string]recLayout{}
 	emptyOK := false
+	nextCases := enumTests(next.Decl.Body)
 	for _, path := range rpaths {
 		lay := recLayout{fields: map[string]recField{}, flag: -1}
 		var flagCmp int64 = -1
 		flagTaken := false
 		var ret *ast.ReturnStmt
+		retAt := 0
 		for i, n := range path {
 			node := gn.Nodes[n]
 			if node == nil {
 				continue
 			}
 			if taken, isCond := gn.Taken(path, i); isCond {
-				if b, ok := core.BinOp(node.(ast.Expr), token.EQL, token.NEQ); ok {
-					for _, ac := range core.Layout(ninfo, b.X, isBufN) {
-						if k, okk := core.ConstInt(ninfo, b.Y); okk && ac.Undec == "" && ac.Off == 0 {
+				// `data[cursor] == K` / `!= K` / `switch data[cursor] { case K: }`, operands possibly hoisted into locals
+				if subj, konst, equal, ok := enumCond(nextCases, node, taken); ok {
+					subj = resolveLocal(ninfo, next.Decl.Body, subj)
+					for _, ac := range core.Layout(ninfo, subj, isBufN) {
+						if k, okk := core.ConstInt(ninfo, konst); okk && ac.Undec == "" && ac.Off == 0 {
 							flagCmp = k
-							flagTaken = taken == (b.Op == token.EQL)
+							flagTaken = equal
 							lay.fields["flag"] = recField{ac.Off, ac.Width, p.Rel(ac.Node.Pos())}
 						}
 					}
@@ -466,7 +470,7 @@ func ruleLocalBufferLayout(r *core.Run, p *core.Prog) {
 				}
 			}
 			if rs, ok := node.(*ast.ReturnStmt); ok {
-				ret = rs
+				ret, retAt = rs, i
 			}
 		}
 		if ret == nil || len(ret.Results) != 7 {
@@ -479,6 +483,8 @@ func ruleLocalBufferLayout(r *core.Run, p *core.Prog) {
 			continue
 		}
 		for i, res := range ret.Results {
+			// a result handed through a local (or the named result of an expanded helper) is read at its definition
+			res = resolveLocal(ninfo, next.Decl.Body, resolveOnPath(ninfo, gn, path, retAt, res))
 			for _, ac := range core.Layout(ninfo, res, isBufN) {
 				if ac.Undec != "" {
 					lay.undec = append(lay.undec, ac.Undec)
